@@ -65,6 +65,23 @@ type World struct {
 	Regs  []*Reg
 
 	Gate func(point string, reg int, eid uint64) // deterministic window scenarios; nil in stress runs
+
+	cmu       sync.Mutex
+	Cancelled map[uint64]bool // publishes made with an already cancelled context (no delivery owed)
+}
+
+var deadCtx = func() context.Context { c, cancel := context.WithCancel(context.Background()); cancel(); return c }()
+
+// PublishCancelled publishes a fresh event of type t with an already cancelled context.
+func (w *World) PublishCancelled(g, t int) uint64 {
+	id := w.NextEID()
+	w.cmu.Lock()
+	if w.Cancelled == nil {
+		w.Cancelled = map[uint64]bool{}
+	}
+	w.Cancelled[id] = true
+	w.cmu.Unlock()
+	return w.PublishID(g, t, &NoisyCtx{Context: deadCtx, W: w, EID: id}, id)
 }
 
 // NewWorld creates a world over the given drivers; opts are extra bus options.
@@ -145,6 +162,9 @@ func (w *World) yield(point string, reg int, eid uint64) {
 	}
 	w.Noise()
 }
+
+// EndBody is called by a Body that is about to panic (the normal exit bookkeeping will not run).
+func (r *Reg) EndBody() { r.inBody.Add(-1) }
 
 // Subscribe registers r (allocating its id) and records the call.
 func (w *World) Subscribe(g int, r *Reg) error {
